@@ -90,12 +90,38 @@ def parse_kani_output(out, names):
     """Split by harness and classify. Verdicts come from `Failed Checks:` lines (with location),
     `VERIFICATION:- SUCCESSFUL`, and cover results; anything else is inconclusive."""
     res = {}
-    # sections start with "Checking harness <path>..."
-    parts = re.split(r'(?m)^(?:Thread \d+: )?Checking harness ([^\s.]+(?:\.[^\s.]+)*)\.\.\.', out)
-    # parts: [pre, name1, text1, name2, text2...]
+    # sequential format:  "Checking harness X..." followed by its result block
+    # parallel (-j) format: "Thread N: Checking harness X..." and later "Thread N: <newline>VERIFICATION RESULT: ..." blocks
     secs = {}
-    for i in range(1, len(parts), 2):
-        secs[parts[i]] = parts[i + 1]
+    cur_by_thread = {}
+    cur = None
+    buf = []
+    mode_thread = re.search(r'(?m)^Thread \d+: Checking harness', out) is not None
+    if not mode_thread:
+        parts = re.split(r'(?m)^Checking harness ([^\s]+?)\.\.\.', out)
+        for i in range(1, len(parts), 2):
+            secs[parts[i]] = parts[i + 1]
+    else:
+        cur_thread = None
+        for ln in out.splitlines():
+            m = re.match(r'^Thread (\d+): Checking harness ([^\s]+?)\.\.\.', ln)
+            if m:
+                cur_by_thread[m.group(1)] = m.group(2)
+                secs.setdefault(m.group(2), '')
+                cur_thread = None
+                continue
+            m = re.match(r'^Thread (\d+): ?(.*)', ln)
+            if m:
+                cur_thread = m.group(1)
+                h = cur_by_thread.get(cur_thread)
+                if h:
+                    secs[h] += m.group(2) + '\n'
+                continue
+            if re.match(r'^(Manual Harness Summary|Complete - )', ln):
+                cur_thread = None
+                continue
+            if cur_thread is not None and cur_by_thread.get(cur_thread):
+                secs[cur_by_thread[cur_thread]] += ln + '\n'
     for n in names:
         key = None
         for k in secs:
@@ -143,7 +169,7 @@ def kani_cmd(harnesses, playback=False, jobs=4):
     if playback:
         cmd += ['-Z', 'concrete-playback', '--concrete-playback=print']
     if len(harnesses) > 1:
-        cmd += ['-j', str(jobs)]
+        cmd += ['-j', str(jobs), '--output-format=terse']
     for h in harnesses:
         cmd += ['--harness', h]
     return cmd
